@@ -31,33 +31,6 @@ Proof.
   unfold emit_site. cbn. rewrite H1, H2. cbn. intros E. injection E as E _. contradiction.
 Qed.
 
-(* ------------------------------------------------------------------ the order on strings *)
-Ltac zcmp := repeat match goal with
-  | |- context [?a <? ?b] => destruct (Z.ltb_spec a b)
-  | H : context [?a <? ?b] |- _ => destruct (Z.ltb_spec a b)
-  end.
-
-Lemma str_leb_total : forall a b, str_leb a b = true \/ str_leb b a = true.
-Proof.
-  induction a as [|x a IH]; destruct b as [|y b]; cbn; auto.
-  zcmp; auto; try lia.
-Qed.
-
-Lemma str_leb_antisym : forall a b, str_leb a b = true -> str_leb b a = true -> a = b.
-Proof.
-  induction a as [|x a IH]; destruct b as [|y b]; cbn; intros H1 H2; try discriminate; [reflexivity|].
-  zcmp; try discriminate; try lia. assert (x = y) by lia. subst. f_equal. now apply IH.
-Qed.
-
-Lemma str_leb_trans : forall a b c, str_leb a b = true -> str_leb b c = true -> str_leb a c = true.
-Proof.
-  induction a as [|x a IH]; destruct b as [|y b]; destruct c as [|z c]; cbn; intros H1 H2; try discriminate; auto.
-  zcmp; try discriminate; try lia; auto. eapply IH; eauto.
-Qed.
-
-Lemma str_leb_refl : forall a, str_leb a a = true.
-Proof. intros a. destruct (str_leb_total a a); assumption. Qed.
-
 (* ------------------------------------------------------------------ schema S: insertion sort *)
 Definition le (a b : str) : Prop := str_leb a b = true.
 
@@ -148,22 +121,9 @@ Proof.
 Qed.
 
 (* ------------------------------------------------------------------ the manifest site *)
-Lemma filter_map_emit : forall (ad : list str) (order : list (str * option str)),
-  map crate_dep (filter (fun c => negb (mem (fst c) ad)) order) =
-  flat_map (fun k => match (if mem (fst k) ad then None else Some (crate_dep k)) with Some d => [d] | None => [] end) order.
+Lemma manifest_site_order_free : forall g o1 o2,
+  NoDup (map fst o1) -> Permutation o1 o2 -> manifest_site g o1 = manifest_site g o2.
 Proof.
-  intros ad. induction order as [|c r IH]; [reflexivity|].
-  cbn [filter flat_map]. destruct (mem (fst c) ad); cbn [negb map app]; now rewrite IH.
-Qed.
-
-Lemma rust_deps_emit : forall g order,
-  rust_deps (with_crates g order) = emit_site (manifest_dep_of g) order.
-Proof. intros g order. exact (filter_map_emit (added g) order). Qed.
-
-Lemma manifest_site_eq : forall g o1 o2,
-  rust_deps (with_crates g o1) = rust_deps (with_crates g o2) -> manifest_site g o1 = manifest_site g o2.
-Proof.
-  intros g o1 o2 H. unfold manifest_site, generate_cargo_toml, manifest_lines, deps.
-  assert (F : fixed_deps (with_crates g o1) = fixed_deps (with_crates g o2)) by reflexivity.
-  rewrite H, F. reflexivity.
+  intros g o1 o2 ND P. unfold manifest_site, generate_cargo_toml, manifest_lines, deps, rust_deps, with_crates.
+  cbn [g_crates]. rewrite (ksort_order_free o1 o2 ND P). reflexivity.
 Qed.
